@@ -8,8 +8,10 @@ impl Query for Segment {
         #[cfg(feature = "verif-hooks")]
         if crate::verif::armed() {
             let input = crate::verif::nodes(&step);
-            let out = crate::verif::reenter(|| self.process(step));
+            let (depth, out) =
+                crate::verif::nested(|| crate::verif::reenter(|| self.process(step)));
             crate::verif::emit(crate::verif::Event::Segment {
+                depth,
                 text: format!("{:?}", self),
                 input,
                 output: crate::verif::nodes(&out),
